@@ -670,6 +670,14 @@ class Interp:
 
     # ---- arithmetic
     def binop(self, op, a, b):
+        if isinstance(a, LazyV) and isinstance(b, LazyV) and op in ('Eq', 'Ne', 'Lt', 'Le', 'Gt', 'Ge'):
+            # two havoc'd scalars compared (e.g. the lengths of two unknown vectors): both become integers of one width; nothing relates
+            # them, so signedness cannot matter for which outcomes are feasible
+            if any(z.ival is not None and z3.is_bool(z.ival) for z in (a, b)):
+                a = a.as_bool(); b = b.as_bool()
+            else:
+                bits = next((z.ival.size() for z in (a, b) if z.ival is not None), 64)
+                a = a.as_int(bits, 0); b = b.as_int(bits, 0)
         if isinstance(a, LazyV) and isinstance(b, IntV):
             a = a.as_int(b.bits, b.signed)
         if isinstance(b, LazyV) and isinstance(a, IntV):
